@@ -84,7 +84,16 @@ func NodeFamily() map[string]datamodel.Node {
 		"bool":   basicnode.NewBool(true),
 		"float":  basicnode.NewFloat(1.5),
 		"link":   basicnode.NewLink(lnk),
+		// sizes on both sides of the places where the CBOR length header changes width (24, 256, 65536)
+		"string_300":  basicnode.NewString(strings.Repeat("abcdefghij", 30)),
+		"bytes_70000": basicnode.NewBytes(bytes.Repeat([]byte{0xde, 0xad, 0xbe, 0xef, 0x00}, 14000)),
 	}
+	ll, _ := qp.BuildList(basicnode.Prototype.Any, -1, func(la datamodel.ListAssembler) {
+		for i := 0; i < 30; i++ {
+			qp.ListEntry(la, qp.Int(int64(i*i)))
+		}
+	})
+	m["list_30"] = ll
 	l, _ := qp.BuildList(basicnode.Prototype.Any, -1, func(la datamodel.ListAssembler) {
 		qp.ListEntry(la, qp.Int(1))
 		qp.ListEntry(la, qp.String("x"))
